@@ -193,7 +193,7 @@ def gen_case(idx: int, seed: int, tier: str) -> Any:
             continue
         leaf = rng.choice(["a", "b", "nested.a", "nested.deep.x", "asphalt\\.core", "nested.asphalt\\.core", "newkey", "nested.1", "nested.1.weight", "nested.0"])
         key = f"{base}.{leaf}" if base else rng.choice(["max_threads", "start_timeout", "opts.x", "opts.asphalt\\.core.level"] if not tier_b else ["max_threads", "start_timeout"])
-        val = rng.choice(["5", "[1, 2]", "{k: 1}", "", "true", "plain", "'quoted: text'", "3.5", "a=b", "@TAG:Env", "@TAG:Env_empty", "@TAG:Env_spaced", "@TAG:TextFile", "@TAG:BinaryFile"])
+        val = rng.choice(["5", "[1, 2]", "{k: 1}", "", "true", "plain", rng.choice(["[80, 443", "{debug: true", "'80", "*ports", "plain"]), "'quoted: text'", "3.5", "a=b", "@TAG:Env", "@TAG:Env_empty", "@TAG:Env_spaced", "@TAG:TextFile", "@TAG:BinaryFile"])
         if key in ("max_threads", "start_timeout"):
             val = rng.choice(["4", "6"])
         sets.append(["kv", key, val])
@@ -213,13 +213,19 @@ def gen_case(idx: int, seed: int, tier: str) -> Any:
             return rng.choice(names) if names else "default"
         return "unknown_service"
 
-    return {"layout": layout, "files": files, "sets": sets, "service": pick(), "env_service": pick(), "tier_b": tier_b, "tags": tags,
+    return {"layout": layout, "files": files, "sets": sets, "service": pick(), "env_service": pick(), "tier_b": tier_b, "tags": tags, "env_salt": rng.randrange(10 ** 6),
+            # the configuration files sit in a sub-directory and are named relative to the working directory, and so are the files
+            # that !TextFile / !BinaryFile name (relative paths are relative to the working directory, as for any other program)
+            "relative_paths": rng.random() < 0.25,
             "short_flag": rng.random() < 0.5, "aliased": bool(alias_base)}
 
 
 # ----------------------------------------------------------------------------- execution
 
 _WORKDIR: str | None = None
+
+
+_ENV_VALUE = "value from the environment"
 
 
 def workdir() -> str:
@@ -233,6 +239,9 @@ def workdir() -> str:
             f.write("text from a file\nsecond line\n")
         with open(os.path.join(_WORKDIR, "blob.bin"), "wb") as f:
             f.write(b"\x00\x01binary\xff")
+        os.mkdir(os.path.join(_WORKDIR, "conf"))
+        with open(os.path.join(_WORKDIR, "conf", "text file.txt"), "w") as f:
+            f.write("a file of the same name beside the configuration files\n")
     return _WORKDIR
 
 
@@ -240,12 +249,17 @@ def materialize(case: dict[str, Any]) -> tuple[list[str], list[dict[str, Any]], 
     """write the YAML files; returns (paths, model documents with tags replaced by their values, environment)"""
     yaml, Dumper = _yaml()
     wd = workdir()
-    env: dict[str, str | None] = {"VERIF_E1": "value from the environment", "VERIF_UNSET": None, "VERIF_EMPTY": "", "VERIF_SPACED": SPACED, "ASPHALT_SERVICE": case["env_service"]}
-    values = {"Env": "value from the environment", "Env_unset": None, "Env_empty": "",  # (a variable that is set, to the empty string)
+    # (the variable's value differs from case to case, the option texts that refer to it do not: every run reads it anew)
+    global _ENV_VALUE
+    _ENV_VALUE = f"value from the environment #{case.get('env_salt', 0)}"
+    env: dict[str, str | None] = {"VERIF_E1": _ENV_VALUE, "VERIF_UNSET": None, "VERIF_EMPTY": "", "VERIF_SPACED": SPACED, "ASPHALT_SERVICE": case["env_service"]}
+    values = {"Env": _ENV_VALUE, "Env_unset": None, "Env_empty": "",  # (a variable that is set, to the empty string)
               "Env_spaced": SPACED,
               "TextFile": "text from a file\nsecond line\n", "BinaryFile": b"\x00\x01binary\xff"}
-    tagobj = {"Env": Tag("Env", "VERIF_E1"), "Env_unset": Tag("Env", "VERIF_UNSET"), "Env_empty": Tag("Env", "VERIF_EMPTY"), "Env_spaced": Tag("Env", "VERIF_SPACED"), "TextFile": Tag("TextFile", os.path.join(wd, "text file.txt")),
-              "BinaryFile": Tag("BinaryFile", os.path.join(wd, "blob.bin"))}
+    rel = bool(case.get("relative_paths"))
+    tagobj = {"Env": Tag("Env", "VERIF_E1"), "Env_unset": Tag("Env", "VERIF_UNSET"), "Env_empty": Tag("Env", "VERIF_EMPTY"), "Env_spaced": Tag("Env", "VERIF_SPACED"),
+              "TextFile": Tag("TextFile", "text file.txt" if rel else os.path.join(wd, "text file.txt")),
+              "BinaryFile": Tag("BinaryFile", "blob.bin" if rel else os.path.join(wd, "blob.bin"))}
 
     def conv(x: Any, for_model: bool) -> Any:
         if isinstance(x, dict):
@@ -263,10 +277,10 @@ def materialize(case: dict[str, Any]) -> tuple[list[str], list[dict[str, Any]], 
 
     paths, docs = [], []
     for i, doc in enumerate(case["files"]):
-        p = os.path.join(wd, f"cfg{i}.yaml")
+        p = os.path.join(wd, "conf", f"cfg{i}.yaml") if rel else os.path.join(wd, f"cfg{i}.yaml")
         with open(p, "w") as f:
             f.write(yaml.dump(conv(doc, False), Dumper=Dumper, default_flow_style=False))
-        paths.append(p)
+        paths.append(os.path.join("conf", f"cfg{i}.yaml") if rel else p)
         docs.append(conv(doc, True))
     return paths, docs, env
 
@@ -276,7 +290,7 @@ def tagged_override(value: str) -> tuple[str, Any] | None:
     if not value.startswith("@TAG:"):
         return None
     wd = workdir()
-    return {"Env": ("!Env VERIF_E1", "value from the environment"),
+    return {"Env": ("!Env VERIF_E1", _ENV_VALUE),
             "Env_empty": ("!Env VERIF_EMPTY", ""),
             "Env_spaced": ("!Env VERIF_SPACED", SPACED),
             "TextFile": ("!TextFile " + os.path.join(wd, "text file.txt"), "text from a file\nsecond line\n"),
@@ -305,7 +319,10 @@ def model_for(case: dict[str, Any], docs: list[dict[str, Any]]) -> Any:
         elif tagged_override(s[2]) is not None:
             sets.append((s[1], tagged_override(s[2])[1]))
         else:
-            sets.append((s[1], yaml.safe_load(s[2])))
+            try:
+                sets.append((s[1], yaml.safe_load(s[2])))
+            except yaml.YAMLError:
+                sets.append((s[1], ("NOEQ",)))  # a value that is not YAML: like an override without '=', the command must fail
     try:
         return expected_call(docs, sets, case["service"], case["env_service"])
     except CliError as e:
@@ -341,7 +358,14 @@ def run_case(case: Any) -> dict[str, Any]:
     orig = _cli.run_application
     _cli.run_application = recorder  # type: ignore[assignment]
     try:
-        result = CliRunner().invoke(_cli.main, args, env=env)
+        here = os.getcwd()
+        if case.get("relative_paths"):
+            os.chdir(workdir())
+            inc("runs_with_paths_relative_to_the_working_directory")
+        try:
+            result = CliRunner().invoke(_cli.main, args, env=env)
+        finally:
+            os.chdir(here)
     finally:
         _cli.run_application = orig  # type: ignore[assignment]
     if isinstance(exp, CliError):
